@@ -1,6 +1,7 @@
 package main
 
 import (
+	"encoding/json"
 	"fmt"
 	"os"
 	"os/exec"
@@ -151,7 +152,7 @@ func panicClass(out string) string {
 }
 
 func hostileText(r *Rng, cfg GenCfg) string {
-	switch r.Intn(6) {
+	switch r.Intn(7) {
 	case 0: // line soup for the native reader
 		return malformedDiffText(r, nil)
 	case 1: // a valid native diff, mutated
@@ -168,12 +169,33 @@ func hostileText(r *Rng, cfg GenCfg) string {
 			return t
 		})
 		return mutateText(r, s)
+	case 6: // a valid JSON Patch cut after any of its operations (still valid JSON, truncated hunks)
+		a, b := cfg.Pair(r)
+		s, _ := safely(func() string {
+			t, err := mustNode(a.Wire()).Diff(mustNode(b.Wire())).RenderPatch()
+			if err != nil {
+				return "[]"
+			}
+			return t
+		})
+		var ops []json.RawMessage
+		if json.Unmarshal([]byte(s), &ops) == nil && len(ops) > 0 {
+			k := r.Intn(len(ops) + 1)
+			lo := 0
+			if r.Chance(1, 3) {
+				lo = r.Intn(k + 1)
+			}
+			bs, _ := json.Marshal(ops[lo:k])
+			return string(bs)
+		}
+		return s
 	case 3: // JSON Patch shaped fragments
 		frags := []string{`[]`, `null`, `{}`, `[null]`, `[1]`, `[{}]`, `[{"op":"test"}]`, `[{"op":"test","path":"/a"}]`, `[{"op":"add","path":"a","value":1}]`,
 			`[{"op":"add","path":"/0","value":1}]`, `[{"op":"test","path":"/0","value":1},{"op":"remove","path":"/0","value":1}]`,
 			`[{"op":"test","path":"/0","value":1},{"op":"remove","path":"/1","value":1}]`, `[{"op":"test","path":"/0","value":1},{"op":"remove","path":"/0","value":2}]`,
 			`[{"op":"replace","path":"/0","value":1}]`, `[{"op":"test","path":"/1","value":1},{"op":"test","path":"/0","value":1},{"op":"test","path":"/a","value":1}]`,
 			`[{"op":"test","path":"/1","value":1},{"op":"test","path":"/3","value":1},{"op":"add","path":"","value":1}]`,
+			`[{"op":"test","path":"/0","value":1},{"op":"test","path":"/1","value":2}]`, `[{"op":"test","path":"/k/2","value":1},{"op":"test","path":"/k/2","value":1}]`,
 			`[{"op":5}]`, `[{"op":"add","path":7}]`, `[{"op":"add","path":"/-","value":[1]}]`, `[{"op":"add","path":"/~2","value":1}]`, `[{"op":"test","path":"/01","value":1},{"op":"remove","path":"/01","value":1}]`,
 			`[{"op":"add","path":"/99999999999999999999","value":1}]`, `[{"op":"add","path":"/-5","value":1}]`, `[{"op":"test","path":"/0","value":1}]`}
 		return frags[r.Intn(len(frags))]
